@@ -385,6 +385,20 @@ for _L, _A, _tier, _to in ((3, 3, "quick", 900), (3, 4, "quick", 1200), (3, 5, "
                      "the explicit-stack loop of package_merge() is unwound 2^(L+1)+2 times (unwinding assertion proved)"],
         outside=["production limit 20 and alphabets above %d symbols (27 GB / no verdict)" % _A, "make_code_lengths() (the clustering trees) and the choice of tables per group"])
 
+# ------------------------------------------------------------------------------- C02: dummy second table of single-table blocks
+for _nm, _tier in ((2, "quick"), (37, "quick"), (150, "thorough")):
+    add("dummy_table_nm%d" % _nm, "h_gpc.c", "h_dummy_table", {"C02": _tier}, defines=["-DNM=%d" % _nm],
+        cbmc=["--unwind", "262"], backend="kissat", timeout=900, mem_gb=8, extra_src=["crctab.c"],
+        remove_bodies=["generate_initial_trees", "assign_codes"], shrink="encoder_bucket",
+        unwind_is_violation=True,   # the bound (262) exceeds the table length (259): a loop that needs more writes outside the table
+        functions=["src/encode.c:generate_prefix_code (sentinel padding, table renumbering, dummy second table)"],
+        witnesses=["dummy_single_length", "dummy_two_lengths", "largest_alphabet", "smallest_alphabet"],
+        bounds="alphabet size symbolic over its whole range 3..258 (production constants); block of %d MTF symbols (concrete), one table in use" % _nm,
+        assumptions=["clustering passes skipped (cluster_factor = 0) with the selector list they leave for one table (all groups use table 0) as pre-state",
+                     "encoder_state's sort bucket array (the other union member) and the selector arrays are shrunk textually to 16 / 8 entries (at most 3 groups are in play); the code tables keep production size; the union holding them is turned into a struct (CBMC 6.11 loses field updates of union members; no member is read after the other is written on this path)",
+                     "bodies of generate_initial_trees() and assign_codes() cut in the solver build (arbitrary return value, no effects): neither writes the dummy table; the native replay runs them"],
+        outside=["blocks that start with two or more tables and end up using one (same code path from the renumbering loop on, not run here)", "the clustering passes themselves"])
+
 # ------------------------------------------------------------------------------- expand.c scheduler: rely/guarantee steps (conservation)
 RGX_ASM = ["codec entry points replaced by stubs returning any result their interface allows; heap helpers replaced by a bag with correct head extraction (real helpers: heap_ops)",
            "RG: at every lock acquisition counters, queue sizes and the parser token are arbitrary subject to INV of h_expand_rg.c (rely); C12 assumed",
